@@ -62,4 +62,20 @@ PROPS = {
         "floors": {"quick": {"evaluations": 500000, "distinct_nontrivial": 5000, "traces_outside_overlap_class": 400000, "resume_flagged_lifecycles": 10000}, "thorough": {"evaluations": 5000000, "distinct_nontrivial": 10000}},
         "assumptions": ["the exactness of start/end relies on timestamps being multiples of 0.1 ms (the resolution of DLT timestamps)"],
     },
+    "C09": {
+        "level": "exploration",
+        "quick": cfg(16, 15),
+        "thorough": cfg(16, 300),
+        "rule": "families of 0-12 sources (thorough: up to 2000, mostly empty) with 0-200 messages each, reception times equal / strictly increasing / random / increasing with heavy ties, arbitrary source indices, start index incl. u32::MAX - n; each message carries (source, position); checked: SortingMultiReaderIterator::new / new_or_single_it and SequentialMultiIterator::new / new_or_single_it (iterator and Vec based). Non-trivial = >=2 non-empty sources with ties; distinct = (sources, empties, all sorted, size bucket, start class).",
+        "floors": {"quick": {"evaluations": 500000, "distinct_nontrivial": 1000}, "thorough": {"evaluations": 5000000, "distinct_nontrivial": 2000, "max_sources": 500}},
+        "assumptions": ["for new_or_single_it with exactly one source the documented behaviour (start_index ignored) is respected: only content and order are compared"],
+    },
+    "C10": {
+        "level": "exploration",
+        "quick": cfg(16, 20),
+        "thorough": cfg(16, 400),
+        "rule": "static lifecycle tables (1-6 lifecycles on 1-4 ECUs, parallel or far apart, built with Lifecycle::new + the public start_time field) and 1-300 (thorough 3000) messages; 2/3 of the cases satisfy the ordering premise by construction (reception = start + timestamp + delay, delay <= min delay, sorted by reception), the rest has arbitrary delays, unknown lifecycle ids, calculated times beyond reception, unordered reception; windows 1-10 s, min delays 0..30 s. The premise is re-checked by the model on every case. Non-trivial = >=3 messages, >=2 lifecycles and the sorter really reordered; distinct = (window, delay class, ecus, lifecycles, premise, size, control requests).",
+        "floors": {"quick": {"evaluations": 500000, "distinct_nontrivial": 2000, "runs_with_premise_satisfied": 300000, "runs_where_sorting_reordered": 200000}, "thorough": {"evaluations": 5000000, "distinct_nontrivial": 5000}},
+        "assumptions": ["lifecycle start times < 2^52 us; the u64::MAX marker of merged lifecycles is never published", "windows_size_secs >= 1 as the statement says"],
+    },
 }
